@@ -76,6 +76,9 @@ fn val(s: &str) -> Result<Variant, VariantError> {
     // (a DOUBLE variable must not end up holding an INTEGER or a LONG)
     if state == STATE_INITIAL || state == STATE_SIGN {
         Ok(Variant::VDouble(0.0))
+    } else if !value.is_finite() {
+        // more digits than a DOUBLE can hold
+        Err(VariantError::Overflow)
     } else {
         let x = Variant::VDouble(value);
         if is_positive { Ok(x) } else { x.negate() }
